@@ -478,27 +478,81 @@ type c11Case struct {
 // number of dependency paths below every node, summed: Outdated()/State() of the real code walks
 // every path (no memo), so the generator keeps this bounded
 func c11Paths(sc [][]int, ar [][][]int) int {
+	// order-free (the wiring need not follow the node numbering): memoised recursion over the
+	// acyclic dependency relation
 	cost := make([]int, len(sc))
-	tot := 0
-	for i := range sc {
+	var rec func(i int) int
+	rec = func(i int) int {
+		if cost[i] > 0 {
+			return cost[i]
+		}
 		k := 1
 		for _, s := range sc[i] {
 			if s >= 0 {
-				k += cost[s]
+				k += rec(s)
 			}
 		}
 		for _, a := range ar[i] {
 			for _, s := range a {
-				k += cost[s]
+				k += rec(s)
 			}
 		}
 		if k > 1<<40 {
 			k = 1 << 40
 		}
 		cost[i] = k
-		tot += k
+		return k
+	}
+	tot := 0
+	for i := range sc {
+		tot += rec(i)
 	}
 	return tot
+}
+
+// c11Reaches: `to` is a reflexive-transitive dependency of `from`
+func c11Reaches(sc [][]int, ar [][][]int, from, to int) bool {
+	seen := make([]bool, len(sc))
+	var rec func(i int) bool
+	rec = func(i int) bool {
+		if i == to {
+			return true
+		}
+		if seen[i] {
+			return false
+		}
+		seen[i] = true
+		for _, s := range sc[i] {
+			if s >= 0 && rec(s) {
+				return true
+			}
+		}
+		for _, a := range ar[i] {
+			for _, s := range a {
+				if rec(s) {
+					return true
+				}
+			}
+		}
+		return false
+	}
+	return rec(from)
+}
+
+// anySrc: a source for a new connection into node i that keeps the graph acyclic but need not have
+// a smaller id (any node from which i is not reachable); -1 if there is none
+func (cs *c11Case) anySrc(i int) int {
+	sc, ar := cs.wiring()
+	var cand []int
+	for j := range cs.nd {
+		if j != i && !c11Reaches(sc, ar, j, i) {
+			cand = append(cand, j)
+		}
+	}
+	if len(cand) == 0 {
+		return -1
+	}
+	return cand[cs.c.Rng.Intn(len(cand))]
 }
 
 const c11PathCap = 1500
@@ -826,18 +880,42 @@ func c11History(c *Ctx, deporder bool) {
 			if i > 0 && r.Intn(4) != 0 {
 				src = r.Intn(i)
 			}
+			if r.Intn(3) == 0 {
+				// any acyclic source, not only smaller ids: the topological order may change over the history
+				if j := cs.anySrc(i); j >= 0 {
+					src = j
+					if j > i {
+						c.Note("si.source-with-larger-id")
+					}
+				}
+			}
 			o = c11Op{"si", i, k, src}
 		case pick < 53 && len(strs) > 0:
 			i := strs[r.Intn(len(strs))]
 			n := cs.nd[i]
-			if len(n.ar) == 0 || i == 0 {
+			if len(n.ar) == 0 {
 				continue
 			}
 			k := r.Intn(len(n.ar))
 			if len(n.ar[k]) >= 6 {
 				continue
 			}
-			o = c11Op{"aa", i, k, r.Intn(i)}
+			src := -1
+			if i > 0 {
+				src = r.Intn(i)
+			}
+			if src < 0 || r.Intn(3) == 0 {
+				if j := cs.anySrc(i); j >= 0 {
+					src = j
+					if j > i {
+						c.Note("aa.source-with-larger-id")
+					}
+				}
+			}
+			if src < 0 {
+				continue
+			}
+			o = c11Op{"aa", i, k, src}
 		case pick < 58 && len(strs) > 0:
 			i := strs[r.Intn(len(strs))]
 			n := cs.nd[i]
@@ -853,8 +931,17 @@ func c11History(c *Ctx, deporder bool) {
 			o = c11Op{kind: "rd", a: r.Intn(N)}
 		}
 		// never a cycle, never an unbounded number of dependency paths
-		if (o.kind == "si" || o.kind == "aa") && o.d >= o.a {
-			panic("c11: generator produced src >= i")
+		if (o.kind == "si" || o.kind == "aa") && o.d >= 0 && cs.nd[o.a].kind == 'S' {
+			sc0, ar0 := cs.wiring()
+			if o.d == o.a || c11Reaches(sc0, ar0, o.d, o.a) {
+				// smaller id no longer implies "does not depend on me" once the order has changed
+				if j := cs.anySrc(o.a); j >= 0 {
+					o.d = j
+				} else {
+					o = c11Op{kind: "rd", a: r.Intn(N)}
+				}
+				c.Note("gen.cycle-avoided")
+			}
 		}
 		if (o.kind == "si" && o.d >= 0 && o.b < len(cs.nd[o.a].sc)) || (o.kind == "aa" && o.b < len(cs.nd[o.a].ar)) {
 			sc, ar := cs.wiring()
